@@ -4,7 +4,9 @@ package main
 
 import (
 	"fmt"
+	"go/constant"
 	"go/token"
+	"go/types"
 	"strings"
 
 	"golang.org/x/tools/go/ssa"
@@ -17,7 +19,7 @@ type GCheck struct {
 	MatchCall func(c *Ctx, call *ssa.Call, env Env) bool
 	BoolFalse bool // success is the callee returning false
 	// MatchCmp: the comparison is the check; returns (matches, successWhenTrue).
-	MatchCmp  func(c *Ctx, b *ssa.BinOp, env Env) (bool, bool)
+	MatchCmp func(c *Ctx, b *ssa.BinOp, env Env) (bool, bool)
 	// MatchOK: a comma-ok TypeAssert / Lookup whose ok == true edge is the success edge.
 	MatchOK   func(c *Ctx, v ssa.Value, env Env) bool
 	NoDescend bool
@@ -154,13 +156,21 @@ func (c *Ctx) sites(f *ssa.Function, env Env, chk *GCheck, depth int) []gsite {
 			case *ssa.TypeAssert:
 				if chk.MatchOK != nil && x.CommaOk && chk.MatchOK(c, x, env) {
 					if okv := extractOf2(x, 1); okv != nil {
-						out = append(out, gsite{cut: boolEdgesT(okv, !chk.BoolFalse), instr: x})
+						s := gsite{cut: boolEdgesT(okv, !chk.BoolFalse), instr: x}
+						if !chk.BoolFalse {
+							s.okVal = okv // `return ok`: the result is true exactly when the check passed
+						}
+						out = append(out, s)
 					}
 				}
 			case *ssa.Lookup:
 				if chk.MatchOK != nil && x.CommaOk && chk.MatchOK(c, x, env) {
 					if okv := extractOf2(x, 1); okv != nil {
-						out = append(out, gsite{cut: boolEdgesT(okv, !chk.BoolFalse), instr: x})
+						s := gsite{cut: boolEdgesT(okv, !chk.BoolFalse), instr: x}
+						if !chk.BoolFalse {
+							s.okVal = okv
+						}
+						out = append(out, s)
 					}
 				}
 			}
@@ -226,6 +236,24 @@ func (c *Ctx) guard(f *ssa.Function, env Env, chk *GCheck, events func(in ssa.In
 				isEv = maySucceed(ret)
 				if isEv && len(ret.Results) > 0 && okVals[ret.Results[len(ret.Results)-1]] {
 					isEv = false
+				}
+				// a single exit whose error result is a φ of this block (named results): the exit succeeds only when it
+				// is entered along an edge that carries a possibly-nil error, from a predecessor reachable without the check
+				if isEv && len(ret.Results) > 0 {
+					if phi, isPhi := ret.Results[len(ret.Results)-1].(*ssa.Phi); isPhi && phi.Block() == b && isErrType(phi.Type()) {
+						isEv = false
+						for i, p := range b.Preds {
+							if _, reachable := seen[p]; !reachable {
+								continue
+							}
+							if cut[edge{from: p, to: b}] {
+								continue
+							}
+							if !nonNilErr(phi.Edges[i], ret) && !okVals[phi.Edges[i]] {
+								isEv = true
+							}
+						}
+					}
 				}
 			}
 			if isEv {
@@ -518,6 +546,10 @@ func (c *Ctx) CheckGuard(rule, key string, f *ssa.Function, env Env, chk *GCheck
 		return false
 	}
 	ok, w, n := c.Guard(f, env, chk, nil)
+	if !ok && c.guardViaTable(f, env, chk) {
+		c.Check(rule, key, true, f.Pos(), fmt.Sprintf("%s%s success => [%s] success edge, for every element of a table-driven loop that carries the checked value", short(f.String()), envNote(env), chk.Name))
+		return true
+	}
 	c.Check(rule, key, ok, f.Pos(), fmt.Sprintf("%s%s success => [%s] success edge; check sites=%d", short(f.String()), envNote(env), chk.Name, n), w...)
 	return ok
 }
@@ -736,4 +768,184 @@ func (c *Ctx) descendSites(f *ssa.Function, env Env, chk, _ *GCheck, depth int) 
 		}
 	}
 	return out
+}
+
+// ---- table-driven loops ------------------------------------------------------------------------
+// `for _, e := range []T{{a1,b1},{a2,b2}} { check(e.a, e.b) }` performs check(a1,b1) and check(a2,b2). A guard
+// obligation about check(X, …) that is not met by straight-line code is retried once per element of every local
+// array literal that is ranged over in f: the loop element's fields are renamed to that element's stored values, and
+// the obligation holds if every iteration crosses the check's success edge (for-all form) and the function cannot
+// succeed without entering the loop.
+
+// tableLoopEnvs returns, for every (array literal, element index) ranged over in f, env extended with the element's
+// field loads renamed to the paths of the values stored for that element.
+func (c *Ctx) tableLoopEnvs(f *ssa.Function, env Env) []Env {
+	var out []Env
+	for _, b := range f.Blocks {
+		for _, in := range b.Instrs {
+			sl, ok := in.(*ssa.Slice)
+			if !ok {
+				continue
+			}
+			al, ok := sl.X.(*ssa.Alloc)
+			if !ok {
+				continue
+			}
+			pt, ok := al.Type().Underlying().(*types.Pointer)
+			if !ok {
+				continue
+			}
+			arr, ok := pt.Elem().Underlying().(*types.Array)
+			if !ok || arr.Len() == 0 || arr.Len() > 16 {
+				continue
+			}
+			// stores per element: field index (-1 for a non-struct element) -> value
+			stores := map[int64]map[int]ssa.Value{}
+			for _, r := range *al.Referrers() {
+				ia, isIA := r.(*ssa.IndexAddr)
+				if !isIA {
+					continue
+				}
+				kc, isK := ia.Index.(*ssa.Const)
+				if !isK {
+					continue
+				}
+				k, _ := constant.Int64Val(kc.Value)
+				if stores[k] == nil {
+					stores[k] = map[int]ssa.Value{}
+				}
+				for _, rr := range *ia.Referrers() {
+					switch y := rr.(type) {
+					case *ssa.Store:
+						if y.Addr == ssa.Value(ia) {
+							stores[k][-1] = y.Val
+						}
+					case *ssa.FieldAddr:
+						for _, r3 := range *y.Referrers() {
+							if st, isS := r3.(*ssa.Store); isS && st.Addr == ssa.Value(y) {
+								stores[k][y.Field] = st.Val
+							}
+						}
+					}
+				}
+			}
+			if int64(len(stores)) != arr.Len() {
+				continue
+			}
+			// element reads inside range loops over the slice
+			type read struct {
+				v   ssa.Value
+				fld int
+			}
+			var reads []read
+			for _, r := range *sl.Referrers() {
+				ia, isIA := r.(*ssa.IndexAddr)
+				if !isIA || c.Path(ia.Index, nil) != "ι" {
+					continue
+				}
+				for _, rr := range *ia.Referrers() {
+					switch y := rr.(type) {
+					case *ssa.UnOp:
+						if y.Op != token.MUL {
+							continue
+						}
+						if _, isStruct := y.Type().Underlying().(*types.Struct); !isStruct {
+							reads = append(reads, read{y, -1})
+							continue
+						}
+						for _, r3 := range *y.Referrers() {
+							switch z := r3.(type) {
+							case *ssa.Field:
+								reads = append(reads, read{z, z.Field})
+							case *ssa.Store:
+								// the element copied into the range variable's own cell
+								la, isLA := z.Addr.(*ssa.Alloc)
+								if !isLA || z.Val != ssa.Value(y) {
+									continue
+								}
+								for _, r4 := range *la.Referrers() {
+									if fa, isFA := r4.(*ssa.FieldAddr); isFA {
+										for _, r5 := range *fa.Referrers() {
+											if ld, isLd := r5.(*ssa.UnOp); isLd && ld.Op == token.MUL {
+												reads = append(reads, read{ld, fa.Field})
+											}
+										}
+									}
+								}
+							}
+						}
+					case *ssa.FieldAddr:
+						for _, r3 := range *y.Referrers() {
+							if ld, isLd := r3.(*ssa.UnOp); isLd && ld.Op == token.MUL {
+								reads = append(reads, read{ld, y.Field})
+							}
+						}
+					}
+				}
+			}
+			if len(reads) == 0 {
+				continue
+			}
+			for k := int64(0); k < arr.Len(); k++ {
+				e := Env{}
+				for kk, vv := range env {
+					e[kk] = vv
+				}
+				okAll := true
+				for _, rd := range reads {
+					sv, has := stores[k][rd.fld]
+					if !has {
+						okAll = false
+						break
+					}
+					e[rd.v] = c.Path(sv, env)
+				}
+				if okAll {
+					out = append(out, e)
+				}
+			}
+		}
+	}
+	return out
+}
+
+// loopBypassed: f can reach a may-succeed return without entering loop l.
+func loopBypassed(f *ssa.Function, l *loop) bool {
+	if f.Blocks[0] == l.header {
+		return false
+	}
+	cutIn := map[edge]bool{}
+	for _, p := range l.header.Preds {
+		if !l.blocks[p] {
+			cutIn[edge{from: p, to: l.header}] = true
+		}
+	}
+	for b := range reach(f.Blocks[0], cutIn) {
+		if r, isR := b.Instrs[len(b.Instrs)-1].(*ssa.Return); isR && maySucceed(r) && !l.blocks[b] {
+			return true
+		}
+	}
+	return false
+}
+
+// guardViaTable is the table-loop fallback of CheckGuard.
+func (c *Ctx) guardViaTable(f *ssa.Function, env Env, chk *GCheck) bool {
+	for _, e := range c.tableLoopEnvs(f, env) {
+		ok, _, n := c.GuardLoop(f, e, chk)
+		if !ok || n == 0 {
+			continue
+		}
+		bypass := false
+		for _, s := range c.sites(f, e, chk, 0) {
+			for _, l := range naturalLoops(f) {
+				if (l.blocks[s.instr.Block()] || l.insideBody(s.instr.Block())) && loopBypassed(f, l) {
+					bypass = true
+				}
+			}
+		}
+		if !bypass {
+			return true
+		}
+	}
+	return false
 }
